@@ -195,7 +195,7 @@ def run_hs(c):
 def neg_case(draw, tier="quick"):
     d = draw(st.sampled_from([2, 3]))
     form = draw(st.sampled_from(["points", "lines"] if d == 2 else ["points"]))
-    return {"d": d, "form": form, "v": [draw(C.hpoint(d, 6)) for _ in range(4)], "bad": draw(st.integers(2, 3))}
+    return {"d": d, "form": form, "v": [draw(C.hpoint(d, 6)) for _ in range(4)], "bad": draw(st.integers(2, 3)), "mixed": draw(st.sampled_from([0, 0, 1, 2]))}
 
 
 def run_neg(c):
@@ -214,6 +214,15 @@ def run_neg(c):
     else:
         args = [Line(f2(e)) for e in els]
         want = NotConcurrent
+    mixed = c.get("mixed", 0)
+    if mixed:
+        # a collection in which only one position is not collinear / concurrent (the other one is a valid quadruple): the call
+        # as a whole must still be refused
+        fourth = [5 * a + 2 * b for a, b in zip(v[0], v[1])]
+        good = [v[0], v[1], third, fourth]
+        cls = {G.Point: G.PointCollection, G.Line: G.LineCollection}[type(args[0])]
+        rows = [[f2(g), f2(e)] if mixed == 1 else [f2(e), f2(g)] for g, e in zip(good, els)]
+        args = [cls(np.stack(r)) for r in rows]
     try:
         r = crossratio(*args)
     except want:
@@ -222,7 +231,7 @@ def run_neg(c):
         f = exc_fail(e, f"crossratio:negative:{c['form']}")
         f.kind = "WRONG_" + f.kind
         return [f]
-    return [Fail("NO_RAISE", f"crossratio:negative:{c['form']}:d{d}", repr(r))]
+    return [Fail("NO_RAISE", f"crossratio:negative:{c['form']}:d{d}" + (":mixed-collection" if mixed else ""), repr(r))]
 
 
 # ------------------------------------------------------------------------------------------- clustered points of P^1
@@ -262,7 +271,7 @@ LAWS = [
         "four integer points N+o_i of P^1 (|N| up to 1e6, exact determinants): value depends on the offsets only", shard=400),
     Law("harmonic_set", lambda tier: hs_case(tier), run_hs, lambda c: True, lambda c: [f"d{c['d']}", "coll" if c["coll"] else "single"],
         {"quick": 1000, "thorough": 20000}, "harmonic_set(a,b,c) equals the exactly computed harmonic conjugate", shard=400),
-    Law("negative", lambda tier: neg_case(tier), run_neg, lambda c: True, lambda c: [c["form"], f"d{c['d']}"], {"quick": 400, "thorough": 6000},
+    Law("negative", lambda tier: neg_case(tier), run_neg, lambda c: True, lambda c: [c["form"], f"d{c['d']}"] + (["mixed-collection"] if c.get("mixed") else []), {"quick": 400, "thorough": 6000},
         "non-collinear points raise NotCollinear, non-concurrent lines raise NotConcurrent", shard=400),
 ]
 
